@@ -287,7 +287,10 @@ class DefaultPredictionStrategy(object):
             kernel_mask = kernel_mask[..., None] * kernel_mask[..., None, :]
             torch.diagonal(kernel_mask, dim1=-2, dim2=-1)[...] = 1
             kernel = kernel * kernel_mask  # Unfortunately, this makes the kernel dense at the moment.
-            train_labels_offset = settings.observation_nan_policy._fill_tensor(train_labels_offset)
+            # The rows of the missing observations are decoupled from the rest, so any finite value gives the same
+            # solution for the observed ones. Zero (rather than the large filling value) keeps the norm of the right-hand
+            # side - which the stopping rule of an iterative solve is relative to - that of the observed entries.
+            train_labels_offset = torch.nan_to_num(train_labels_offset, nan=0.0)
             mean_cache = kernel.solve(train_labels_offset).squeeze(-1)
             mean_cache[missing] = torch.nan  # Ensure that nobody expects these values to be valid.
         if settings.detach_test_caches.on():
